@@ -204,6 +204,18 @@ CHECKS.update({
     ),
 })
 
+CHECKS.update({
+    "C22": (
+        "generated linear/bilinear forms on mixed elements and mixed function spaces; oracle = interpreter value of F with all but the (i, j) sub-functions' polynomial coefficients zeroed vs value of block (i, j), and sum of blocks vs F",
+        "Hypothesis-generated multilinear forms whose arguments are on mixed elements (2-3 scalar/vector/Piola sub-elements, "
+        "flat and immersed cells) or carry MixedFunctionSpace parts: every block returned by extract_blocks (full, row and "
+        "single (i, j); replace_argument True and False) must equal the form with all other sub-functions set to zero and the "
+        "blocks must sum to the form, per (integral type, subdomain, metadata).",
+        "Trusts the interpreter; new sub-space arguments are tied to the parent argument's rows by the harness.",
+        "4/C22",
+    ),
+})
+
 NOT_YET = {}
 
 
